@@ -425,6 +425,7 @@ class Rewriter:
         writes = {}
         whole = {}           # writes that replace the variable / field itself (not a part of it)
         addr = set()
+        addr_of = set()          # locals whose address is taken explicitly: the object's identity matters, a copy is not its source
         for y in walk(body):
             w = match.unop(y, ("++", "--")) or (match.binop(y, ("=", "+=", "-=", "*=", "/=", "%=", "|=", "&=", "^=", ">>=", "<<="))
                                                 if y["k"] in ("BinaryOperator", "CompoundAssignOperator", "CXXOperatorCallExpr") else None)
@@ -442,6 +443,10 @@ class Rewriter:
                     writes.setdefault("?mem", []).append(y)      # a store into memory: may alias what an initialiser reads
             if y["k"] == "UnaryOperator" and y.get("op") == "&" and strip_casts(kids(y)[0])["k"] == "DeclRefExpr":
                 addr.add(strip_casts(kids(y)[0])["ref"]["id"])
+                addr_of.add(strip_casts(kids(y)[0])["ref"]["id"])
+            if "callee" in y and y["k"] == "CallExpr" and y["callee"]["name"] == "addressof" and kids(y) and \
+                    strip_casts(kids(y)[-1]) is not None and strip_casts(kids(y)[-1])["k"] == "DeclRefExpr":
+                addr_of.add(strip_casts(kids(y)[-1])["ref"]["id"])
             if "callee" in y and y["k"] == "CallExpr" and y["callee"]["name"] == "move" and len(kids(y)) >= 1 and \
                     (y["callee"].get("qname") or "std::move").startswith("std::"):
                 # std::move(x): whoever consumes the result may empty x - a write to x at this point
@@ -486,6 +491,8 @@ class Rewriter:
         for d, v in decls.items():
             if d in by_ref_captured or d in moved:
                 continue
+            if d in addr_of and not (v.get("ty") or "").rstrip().endswith("&"):
+                continue             # &copy is not &original
             if any(y["k"] == "DeclRefExpr" and y["ref"]["id"] in by_ref_captured for y in walk(kids(v)[0])):
                 continue
             # a snapshot of shared state (an atomic member, an atomic load) is a value in time: reading it again at
